@@ -506,6 +506,23 @@ fn run_main(args: &[String]) -> i32 {
     0
 }
 
+/// The library's public type assignment (field number -> kind), for the drivers: they pick
+/// supported widths from it so that generated streams are conformant for the library's own typing.
+fn kinds_main() {
+    use netflow_parser::variable_versions::data_number::FieldDataType;
+    use netflow_parser::variable_versions::ipfix_lookup::IPFixField;
+    use netflow_parser::variable_versions::v9_lookup::V9Field;
+    let mut v9 = serde_json::Map::new();
+    let mut ix = serde_json::Map::new();
+    for t in 0u16..=600 {
+        let f = V9Field::from(t);
+        v9.insert(t.to_string(), json!([format!("{:?}", f), format!("{:?}", FieldDataType::from(f))]));
+        let g = IPFixField::from(t);
+        ix.insert(t.to_string(), json!([format!("{:?}", g), format!("{:?}", FieldDataType::from(g))]));
+    }
+    println!("{}", json!({"v9": v9, "ipfix": ix, "puf": cfg!(feature = "puf")}));
+}
+
 fn main() {
     let args: Vec<String> = std::env::args().collect();
     if args.len() < 2 {
@@ -515,6 +532,7 @@ fn main() {
     match args[1].as_str() {
         "worker" => worker_main(&args[2..]),
         "run" => std::process::exit(run_main(&args[2..])),
+        "kinds" => kinds_main(),
         _ => {
             eprintln!("unknown subcommand");
             std::process::exit(2);
